@@ -461,9 +461,28 @@ func diffStep(st Step, tl TraceLine) string {
 		if !ok {
 			continue
 		}
+		if k == "parked" {
+			wv, gv = sortedStrs(wv), sortedStrs(gv)
+		}
 		if Canon(wv) != Canon(gv) {
 			return fmt.Sprintf("post.%s: want %s got %s", k, Canon(wv), Canon(gv))
 		}
 	}
 	return ""
+}
+
+func sortedStrs(v any) any {
+	var l []string
+	switch x := v.(type) {
+	case []any:
+		for _, e := range x {
+			l = append(l, fmt.Sprint(e))
+		}
+	case []string:
+		l = append(l, x...)
+	default:
+		return v
+	}
+	sort.Strings(l)
+	return l
 }
